@@ -231,8 +231,45 @@ func checkC11(c *Ctx, r *Report) {
 			}
 		}
 	}
+	// C11.frames: program counters are symbolised only through runtime.CallersFrames (or runtime.Caller), the APIs that
+	// expand inlined frames; runtime.FuncForPC/(*Func).FileLine attribute a pc inside an inlined body to the wrong line
+	c.checkFrameAPI(r, ro)
 	// C11.disabled: File/Line of the event are assigned only from look-up results obtained under enableCaller
 	c.checkCallerDisabled(r, R)
+}
+
+func (c *Ctx) checkFrameAPI(r *Report, ro *Roles) {
+	n := 0
+	var bad []string
+	frames := 0
+	for f := range c.reach(ro.Recorder) {
+		eachInstr(f, func(in ssa.Instruction) {
+			ci, ok := in.(ssa.CallInstruction)
+			if !ok {
+				return
+			}
+			s := ci.Common().StaticCallee()
+			if s == nil || s.Pkg == nil || s.Pkg.Pkg.Path() != "runtime" {
+				return
+			}
+			n++
+			switch {
+			case s.Name() == "FuncForPC" || (s.Signature.Recv() != nil && (s.Name() == "FileLine" || s.Name() == "Entry")):
+				bad = append(bad, fmt.Sprintf("runtime.%s in %s at %s", s.Name(), fname(f), c.instrPos(in)))
+			case s.Name() == "CallersFrames" || s.Name() == "Caller":
+				frames++
+			}
+		})
+	}
+	key := "C11.frames:" + fname(ro.Recorder)
+	r.Count("runtime_calls", n)
+	if len(bad) > 0 {
+		r.Fail(key, "", "a program counter is symbolised with %s: FuncForPC/FileLine do not expand inlined frames, so a call made from (or returning into) an inlined function is attributed to the wrong line, and the two caller modes disagree", strings.Join(bad, "; "))
+	} else if frames < 2 {
+		r.Fail(key, "", "expected runtime.Caller and runtime.CallersFrames as the only symbolisation APIs below the recorder, found %d", frames)
+	} else {
+		r.OK(key, "%d runtime calls below the recorder; locations come only from runtime.Caller / runtime.CallersFrames (inline-aware)", n)
+	}
 }
 
 // chainsTo enumerates static call chains from -> ... -> to (length ≤ depth), as call-site lists.
